@@ -85,9 +85,14 @@ SHAPE_DOC = {
     40: "new(name, base, temp, reopen=False), FilerDoer(filer).enter(temp=t), .exit()   t = None/True/False from (reuse, clear)",
     41: "shape 40 + reopen(), close(clear=True)",
     42: "shape 40 with the filer closed (without clear) by somebody else between FilerDoer.enter and FilerDoer.exit",
+    43: "init(reopen=True) - the filer is already open - then FilerDoer(filer).enter(temp=t), .exit()",
+    50: "shape 0 with the primary head directory unusable (its parent is a file): the Filer falls back to its alternate head",
+    51: "shape 1 with the primary head directory unusable",
+    52: "shape 0 with RELATIVE class-level head directories, the working directory changed between init and close(clear=True)",
 }
-QUICK_SHAPES = (0, 1, 10, 11, 12, 20, 30, 31, 40, 42)
-THOROUGH_SHAPES = (0, 1, 2, 3, 10, 11, 12, 20, 21, 30, 31, 32, 33, 40, 41, 42)
+BLOCKED = (50, 51)
+QUICK_SHAPES = (0, 1, 10, 11, 12, 20, 30, 31, 40, 42, 43, 50, 52)
+THOROUGH_SHAPES = (0, 1, 2, 3, 10, 11, 12, 20, 21, 30, 31, 32, 33, 40, 41, 42, 43, 50, 51, 52)
 DOER_TEMP = {(0, 0): None, (0, 1): True, (1, 0): False}
 
 
@@ -102,11 +107,21 @@ def valid(flags, shape):
         return not reuse and not clear           # remake takes neither
     if shape in (40, 41, 42):
         return (reuse, clear) in DOER_TEMP and not clean
+    if shape == 43:
+        return (reuse, clear) in DOER_TEMP
+    if shape == 52:
+        return bool(clear) and not reuse         # the close is the clearing one
     return True
 
 
 def plan(flags, shape):
     temp, clean, filed, extensioned, reuse, clear = [bool(x) for x in flags]
+    if shape == 43:
+        return [("init", {}), ("FilerDoer.enter", {"temp": DOER_TEMP[(int(reuse), int(clear))]}), ("FilerDoer.exit", {})]
+    if shape == 52:
+        return [("init", {}), ("chdir", {}), ("close", {"clear": True})]
+    if shape in BLOCKED:
+        shape -= 50
     if shape in (0, 1, 2, 3):
         steps = [("init", {})]
         if shape & 1:
@@ -252,11 +267,15 @@ def region(path):
     return "above-head"                 # an ancestor or sibling of head/alt/tmp, or one of these directories itself
 
 
-def make_class(top):
+def make_class(top, blocked=False, relative=False):
+    """blocked: the primary head lies below a regular FILE (a sentinel), so creating it fails with OSError and the Filer
+    falls back to its alternate head; relative: the three class-level directories are relative paths (cwd == top)"""
+    base = "" if relative else top
+
     class SandboxFiler(filing.Filer):
-        HeadDirPath = os.path.join(top, HEAD)
-        AltHeadDirPath = os.path.join(top, ALT)
-        TempHeadDir = os.path.join(top, TMP)
+        HeadDirPath = os.path.join(base, L2, "SENTINEL", "head") if blocked else os.path.join(base, HEAD)
+        AltHeadDirPath = os.path.join(base, ALT)
+        TempHeadDir = os.path.join(base, TMP)
     return SandboxFiler
 
 
@@ -276,7 +295,11 @@ def run_case(top, name, base, flags, shape):
     temp, clean, filed, extensioned, reuse, clear = [bool(x) for x in flags]
     steps = plan(flags, shape)
     before = prepare(top)
-    cls = make_class(top)
+    cls = make_class(top, blocked=(shape in BLOCKED), relative=(shape == 52))
+    OWNHEAD = ALT if shape in BLOCKED else HEAD      # the head directory this instance works in
+    cwd0 = os.getcwd()
+    if shape == 52:
+        os.chdir(top)
     viols, obs, stats = [], [], {}
     tempnames = {}          # random mkdtemp basename -> T<k>
     mine = set()            # mkdtemp directories made while this instance worked (relative paths)
@@ -292,12 +315,16 @@ def run_case(top, name, base, flags, shape):
         return TEMPRE.sub(lambda m: tempnames.get(m.group(0), m.group(0)), p)
 
     def rel(p):
-        return os.path.relpath(p, top) if p else None
+        if not p:
+            return None
+        if not os.path.isabs(p):      # (a Filer that keeps a relative path: it meant the directory it was made in)
+            p = os.path.join(top, p)
+        return os.path.relpath(p, top)
 
     def in_mode(p, t):
         if t:
             return any(under(p, m) for m in mine)
-        return inside(p, HEAD)
+        return inside(p, OWNHEAD)
 
     try:
         done = []
@@ -329,6 +356,8 @@ def run_case(top, name, base, flags, shape):
                     if rfile is not None:
                         tofree.append(rfile)
                         rfile.close()
+                elif op == "chdir":
+                    os.chdir(os.path.join(top, "outer", "sib"))
                 elif op == "reopen":
                     filer.reopen(clean=clean, **args)
                 elif op == "close":
@@ -410,7 +439,7 @@ def run_case(top, name, base, flags, shape):
             if lost:
                 viols.append(("sentinel-destroyed:%s:%s" % (op, modename(tb)), "%s: sentinel files gone or altered: %s" % (where, ", ".join(lost[:4]))))
             if changed and not lost:
-                foreign = [p for p in changed if not (inside(p, HEAD) or any(inside(p, t) for t in mine))]
+                foreign = [p for p in changed if not (inside(p, OWNHEAD) or any(inside(p, t) for t in mine))]
                 if foreign:
                     viols.append(("foreign-altered:%s:%s" % (op, modename(tb)), "%s: entries altered: %s" % (where, ", ".join(norm(p) for p in foreign[:4]))))
             # -- clause 2: steps that clear
@@ -443,7 +472,7 @@ def run_case(top, name, base, flags, shape):
                             viols.append(("clear-leaves:earlier-temp-root", "%s: the mkdtemp directory %s of an earlier (re)open of the same "
                                           "instance is still there" % (where, norm(t))))
                 else:
-                    rest = sorted(p for p in created_total if p in after and inside(p, HEAD))
+                    rest = sorted(p for p in created_total if p in after and inside(p, OWNHEAD))
                     if rest:
                         stats["leftover_intermediate_dirs_cases"] = 1
                         if STRICT_INTERMEDIATE:
@@ -466,6 +495,7 @@ def run_case(top, name, base, flags, shape):
                 break
         return "ran", viols, tuple(obs), stats
     finally:
+        os.chdir(cwd0)
         try:
             if filer is not None and getattr(filer, "file", None):
                 filer.file.close()
